@@ -12,19 +12,29 @@ Ltac pypow_norm :=
   | |- context [pypow ?x ?e] => rewrite (pypow_pos x e) by interval with (i_prec 60)
   end.
 
+(* innermost guards first: the operands must not contain a guard themselves *)
+Ltac no_dec t :=
+  lazymatch t with
+  | context [Rle_dec _ _] => fail
+  | context [Rlt_dec _ _] => fail
+  | _ => idtac
+  end.
+
 (* decide every sumbool guard by an interval proof of the strict side *)
 Ltac dec_norm :=
   repeat match goal with
   | |- context [Rle_dec ?a ?b] =>
+      no_dec a; no_dec b;
       let H := fresh "H" in
       destruct (Rle_dec a b) as [H|H];
       [ try (exfalso; assert (b < a) by (interval with (i_prec 80)); lra)
-      | try (exfalso; apply H; interval with (i_prec 80)) ]
+      | try (exfalso; apply H; interval with (i_prec 80)) ]; cbv iota beta
   | |- context [Rlt_dec ?a ?b] =>
+      no_dec a; no_dec b;
       let H := fresh "H" in
       destruct (Rlt_dec a b) as [H|H];
       [ try (exfalso; assert (b <= a) by (interval with (i_prec 80)); lra)
-      | try (exfalso; apply H; interval with (i_prec 80)) ]
+      | try (exfalso; apply H; interval with (i_prec 80)) ]; cbv iota beta
   end.
 
 Ltac cert_close := interval with (i_prec 90).
